@@ -1,6 +1,7 @@
 import Driver.Common
 import GeosModel.Model.Conc.Interleave
 import GeosModel.Model.Conc.Cells
+import GeosModel.Model.Conc.IndexedLocate
 import GeosModel.Generated.Globals
 /-! Driver for C13.
 * `threads`: a case of the multi-threaded harness, abstracted to the process-wide cells its calls touch
@@ -61,6 +62,43 @@ def threads (line : String) : String :=
     checkCase scripts (seed.toNat?.getD 1)
   | _ => "bad-line"
 
+/-! ### stream `sharedlocate`: the location letters of every thread's points, from rings and points alone -/
+open GeosModel.Kernel in
+def takePts : Nat → List Int → Option (List Pt × List Int)
+  | 0, r => some ([], r)
+  | n + 1, x :: y :: r => (takePts n r).map (fun (ps, r') => (⟨x, y⟩ :: ps, r'))
+  | _ + 1, _ => none
+
+open GeosModel.Kernel in
+def takeGroups : Nat → List Int → Option (List (List Pt) × List Int)
+  | 0, r => some ([], r)
+  | n + 1, k :: r => do
+    let (ps, r') ← takePts k.toNat r
+    let (gs, r'') ← takeGroups n r'
+    some (ps :: gs, r'')
+  | _ + 1, [] => none
+
+def letter : GeosModel.Kernel.Loc → Char
+  | .interior => 'I'
+  | .boundary => 'B'
+  | .exterior => 'E'
+
+def sharedlocate (line : String) : String :=
+  match Driver.tokens line with
+  | "SL" :: t :: _rounds :: nr :: rest =>
+    match t.toNat?, nr.toNat?, rest.mapM String.toInt? with
+    | some t, some nr, some ints =>
+      match takeGroups nr ints with
+      | some (rings, r) =>
+        match takeGroups t r with
+        | some (pts, []) =>
+          Driver.joinWith ";" (pts.map (fun qs =>
+            if qs.isEmpty then "-" else String.ofList (qs.map (fun q => letter (GeosModel.Conc.Locate.locate rings q)))))
+        | _ => "bad-line"
+      | none => "bad-line"
+    | _, _, _ => "bad-line"
+  | _ => "bad-line"
+
 def kindStr : CellKind → String
   | .global => "global" | .functionStatic => "functionStatic" | .guard => "guard" | .mutableMember => "mutableMember"
 def tyStr : TyClass → String
@@ -74,8 +112,9 @@ def main (args : List String) : IO UInt32 := do
   let stdout ← IO.getStdout
   match args with
   | ["threads"] => Driver.loop stdin stdout Driver.C13.threads; return 0
+  | ["sharedlocate"] => Driver.loop stdin stdout Driver.C13.sharedlocate; return 0
   | ["inventory"] =>
     for c in GeosModel.Generated.Globals.cells do
       stdout.putStrLn s!"{c.name}\t{Driver.C13.kindStr c.kind}\t{Driver.C13.tyStr c.ty}\t{c.lib}\t{c.loc}\t{c.decl}"
     return 0
-  | _ => IO.eprintln "usage: drv_c13 threads|inventory"; return 2
+  | _ => IO.eprintln "usage: drv_c13 threads|sharedlocate|inventory"; return 2
